@@ -48,6 +48,8 @@ def h_handle(params):
             s = pspec(i, used, params.get("torder", "ooo"), params.get("alpha", "sel"))
             if name == "":
                 s["meas"] = ("", "m")[lpe.choose(h.name("me"), 2)]
+            elif params.get("prefix_names"):
+                s["meas"] = ("m", "mm")[lpe.choose(h.name("me"), 2)]
             apply_op(h, ("ins", s))
         for op in params.get("pre", []):
             apply_op(h, _untuple(op))
@@ -117,6 +119,15 @@ def obligations(tier):
         for pre_name, pre in (("none", []), ("drop", [("drop", name or "m")]), ("rmall_ins", [("rmall",), ("ins", {"time": SYM, "meas": name or "m", "tags": {"k": "a"}, "fields": {}})])):
             for kind, extra in (("reads", {"q": B}), ("remove", {"q": B}), ("update", {"q": B, "upd": UPDS["field=sym"]}), ("insert", {}), ("getters", {})):
                 obs.append(_ob(f"stale/{tag}/{pre_name}/{kind}", name=name, kind=kind, stale=True, pre=pre, ai=True, also=["tag"], **extra))
+    # one measurement name a prefix of another (m / mm), index-served and scan-served (inexact query)
+    for name in ("m", "mm"):
+        for cname, ai, rx in CONFIGS[:2]:
+            for q in (B, ("not", C), ("noop", "tag")):
+                obs.append(_ob(f"prefix-names/reads/{name}/{q_repr(q)}/{cname}", name=name, kind="reads", q=q, ai=ai, prefix_names=True, also=["tag"]))
+                obs.append(_ob(f"prefix-names/remove/{name}/{q_repr(q)}/{cname}", name=name, kind="remove", q=q, ai=ai, prefix_names=True, also=["tag"]))
+                obs.append(_ob(f"prefix-names/update/{name}/{q_repr(q)}/{cname}", name=name, kind="update", q=q, upd=UPDS["field=sym"], ai=ai, prefix_names=True, also=["tag"]))
+            obs.append(_ob(f"prefix-names/remove_all/{name}/{cname}", name=name, kind="remove_all", ai=ai, prefix_names=True, also=["tag"]))
+            obs.append(_ob(f"prefix-names/getters/{name}/{cname}", name=name, kind="getters", ai=ai, prefix_names=True, also=["tag", "field"], alpha="none"))
     for name in ("m", "zz"):
         for kind, extra in (("reads", {"q": ("time", OP, SYM)}), ("remove", {"q": B}), ("update", {"q": B, "upd": UPDS["field=sym"]}), ("insert", {})):
             for cname, ai, rx in CONFIGS[:2]:
